@@ -132,6 +132,12 @@ def setp(t, p, new):
 FRESH = [("text", "T"), ("comment", "C"), ("pi", "n", "N"), ("tag", "", "n", [], [])]
 
 
+def pi_content(s):
+    """content a processing instruction may have: no leading XML white space (refused by the validator since 528fc02;
+    a parser would drop it anyway)"""
+    return s.lstrip(" \t\n\r")
+
+
 def mutants_at(t, p):
     """every single-point mutation of the node at path p: (kind, mutated tree)"""
     n = get(t, p)
@@ -172,14 +178,14 @@ def mutants_at(t, p):
         return res
     if n[0] == "text":
         res = [("text changed", setp(t, p, ("text", n[1] + "!"))), ("text changed", setp(t, p, ("text", n[1][:-1] + "z"))),
-               ("node kind changed", setp(t, p, ("comment", n[1]))), ("node kind changed", setp(t, p, ("pi", "p", n[1]))),
+               ("node kind changed", setp(t, p, ("comment", n[1]))), ("node kind changed", setp(t, p, ("pi", "p", pi_content(n[1])))),
                ("node kind changed", setp(t, p, ("tag", "", "a", [], [("text", n[1])])))]
         if p:
             res.append(("text removed", setp(t, p, None)))
         return res
     if n[0] == "comment":
         res = [("comment changed", setp(t, p, ("comment", n[1] + "!"))), ("node kind changed", setp(t, p, ("text", n[1]))),
-               ("node kind changed", setp(t, p, ("pi", "p", n[1])))]
+               ("node kind changed", setp(t, p, ("pi", "p", pi_content(n[1]))))]
         if p:
             res.append(("comment removed", setp(t, p, None)))
         return res
